@@ -15,7 +15,7 @@
 //! * a peer record is accepted by the decoder of its own format only (legacy vs interop), and never when
 //!   the peer id inside differs from the signer (hand-encoded payloads; the same builder with the
 //!   signer's id is the accepted control).
-//! * every single-byte mutation (thorough: 255 values per position; quick: 4 masks), truncation,
+//! * every single-byte mutation (4 values per position; thorough: all 255 values for 24 envelopes and 24 records), truncation,
 //!   deletion and insertion applied to an encoded envelope: decoding fails, or extraction/record
 //!   reconstruction fails, or the accepted result has exactly the original (peer id, seq, addresses)
 //!   resp. (payload, signing key).
@@ -155,7 +155,7 @@ fn gen_domain(rng: &mut Rng) -> String {
     (0..n).map(|_| *rng.pick(&['a', 'b', '-', 'z', 'é', '/', '0'])).collect()
 }
 
-fn envelope_case(check: &Check, rng: &mut Rng, allow_rsa: bool, thorough: bool) {
+fn envelope_case(check: &Check, rng: &mut Rng, allow_rsa: bool, thorough: bool, deep: bool) {
     let (kind, kp) = gen_any_key(rng, allow_rsa);
     let kname = KEY_TYPES[kind];
     let domain = gen_domain(rng);
@@ -269,7 +269,7 @@ fn envelope_case(check: &Check, rng: &mut Rng, allow_rsa: bool, thorough: bool) 
             },
         }
     };
-    mutate_all(&bytes, rng, thorough, &try_mutant);
+    mutate_all(&bytes, rng, thorough, deep, &try_mutant);
     check.case(Sig::new().bytes(&bytes).0, true);
     check.count(&format!("envelope_cases_{kname}"), 1);
     if take_sample(&S_ENV, 1) {
@@ -278,9 +278,9 @@ fn envelope_case(check: &Check, rng: &mut Rng, allow_rsa: bool, thorough: bool) 
 }
 
 /// single-byte replacements at every position, truncations, deletions, insertions
-fn mutate_all(bytes: &[u8], rng: &mut Rng, thorough: bool, f: &dyn Fn(&[u8], &str, usize)) {
+fn mutate_all(bytes: &[u8], rng: &mut Rng, thorough: bool, deep: bool, f: &dyn Fn(&[u8], &str, usize)) {
     for at in 0..bytes.len() {
-        if thorough {
+        if deep {
             for v in 0..=255u8 {
                 if v != bytes[at] {
                     let mut m = bytes.to_vec();
@@ -348,7 +348,7 @@ fn record_payload(peer: &[u8], seq: u64, addrs: &[Multiaddr]) -> Vec<u8> {
 
 type Decoder = fn(SignedEnvelope) -> Result<PeerRecord, libp2p_core::peer_record::FromEnvelopeError>;
 
-fn record_case(check: &Check, rng: &mut Rng, allow_rsa: bool, thorough: bool) {
+fn record_case(check: &Check, rng: &mut Rng, allow_rsa: bool, thorough: bool, deep: bool) {
     let (kind, kp) = gen_any_key(rng, allow_rsa);
     let kname = KEY_TYPES[kind];
     let interop = rng.bool();
@@ -434,7 +434,7 @@ fn record_case(check: &Check, rng: &mut Rng, allow_rsa: bool, thorough: bool) {
             }
         }
     };
-    mutate_all(&bytes, rng, thorough, &try_mutant);
+    mutate_all(&bytes, rng, thorough, deep, &try_mutant);
     check.case(Sig::new().bytes(&bytes).u64(1).0, true);
     check.count(&format!("record_cases_{kname}"), 1);
     if take_sample(&S_REC, 2) {
@@ -453,16 +453,16 @@ pub fn run(args: &Args) -> i32 {
          non-trivial = every case (each executes the genuine-accept control); distinct by encoded bytes",
     );
     let thorough = args.tier == Tier::Thorough;
-    let n_sig = budget(args, 8, 600, 6_000);
+    let n_sig = budget(args, 8, 400, 6_000);
     vmon::par_cases(&check, n_sig, args.threads, |i, rng| {
         // RSA is slow to sign: 1 case in 32
         let kind = if i % 32 == 31 { RSA } else { (i % 3) as usize };
         signature_case(&check, kind, rng, thorough);
     });
-    let n_env = budget(args, 4, 200, 1_200);
-    vmon::par_cases(&check, n_env, args.threads, |i, rng| envelope_case(&check, rng, i % 16 == 0, thorough));
-    let n_rec = budget(args, 4, 200, 1_200);
-    vmon::par_cases(&check, n_rec, args.threads, |i, rng| record_case(&check, rng, i % 16 == 0, thorough));
-    check.note("exhaustive", json!("single-byte mutations: all positions (thorough: all 255 values); cases sampled"));
+    let n_env = budget(args, 4, 140, 800);
+    vmon::par_cases(&check, n_env, args.threads, |i, rng| envelope_case(&check, rng, i % 16 == 0, thorough, thorough && i < 24));
+    let n_rec = budget(args, 4, 140, 800);
+    vmon::par_cases(&check, n_rec, args.threads, |i, rng| record_case(&check, rng, i % 16 == 0, thorough, thorough && i < 24));
+    check.note("exhaustive", json!("single-byte mutations: all positions x 4 values (thorough: all 255 values for 24+24 encodings); cases sampled"));
     check.finish()
 }
